@@ -20,6 +20,8 @@ DEEP = [
     ('cancel_group', 'cancel_group', 'schedule'),
     ('cancel_group', 'u2_create', 'u2_groups', 'u2_jobs'),
     ('u2_create', 'u2_groups', 'cancel_group', 'u2_jobs'),
+    ('u2_create', 'u2_group1', 'cancel_group', 'u2_group2'),     # second group bunch names the first by its in-update id
+    ('u2_create', 'cancel_group', 'u2_group1', 'u2_group2', 'u2_jobs'),
     ('u2_create', 'cancel_group', 'u2_groups', 'u2_jobs', 'u2_commit') if False else ('u2_create', 'cancel_group', 'u2_groups', 'u2_jobs'),
     ('schedule', 'cancel_group', 'started', 'complete'),
     ('creating', 'cancel_group', 'schedule', 'cancel_group'),
@@ -77,7 +79,7 @@ def run(R):
     R.assume(*sc_.ASSUMPTIONS)
     R.extra['trusted_base'] = ['z3', 'vt/sqlsym interpreter', 'vt/glue', 'environment stubs of vt/sqlsym/batchops.py']
     quick = R.tier == 'quick'
-    sizes = model.Sizes(J=3, G=3, U=2, I=1, A=2, T=2, IC=1) if quick else model.Sizes(J=4, G=3, U=2, I=2, A=2, T=2, IC=1)
+    sizes = model.Sizes(J=3, G=4, U=2, I=1, A=2, T=2, IC=1) if quick else model.Sizes(J=4, G=4, U=2, I=2, A=2, T=2, IC=1)
     run_bmc_property(R, 'C07', sizes, n1=2, g1=1, alphabet=[a for a in ALPH if not a.startswith('u2_')] if quick else ALPH,
                      depth=2, asserts=asserts, classify=lambda bad, vals, sc, known: 'cancellation-confinement-violated',
                      extra_seqs=DEEP, workers=int(os.environ.get('VERIF_WORKERS', '12')))
